@@ -170,6 +170,8 @@ pub fn profile(family: &str) -> Profile {
             owning_pm: 1000,
             join_ops_pm: 1000,
             panic_pm: 60,
+            timeout_pm: 250,
+            fail_on_timeout_pm: 300,
             fail_start_pm: 120,
             strategies: &[Strategy::RestartOnly, Strategy::RecreateFromDefault],
             w: [25, 15, 5, 1, 5, 8, 2, 3, 3, 6, 2, 6, 8, 4, 2],
@@ -272,6 +274,14 @@ pub fn spec(r: &mut Rng, p: &Profile) -> Spec {
         s.stopped = script(r, p, true);
         if r.chance(p.panic_pm) {
             s.stopped.push(Act::Panic);
+        }
+    }
+    if p.name == "owning" {
+        if let Some(t) = s.timeout {
+            if r.chance(500) {
+                // a clean-up that takes longer than the handler limit (which does not apply to it)
+                s.stopped.push(Act::Sleep(t + 1 + 2 * r.below(10)));
+            }
         }
     }
     if r.chance(300) {
@@ -616,6 +626,17 @@ pub fn gen_case(family: &str, r: &mut Rng) -> Case {
         }
         fix_sleeps(&mut prog, eff.timeout);
         clients.push(prog);
+    }
+    if p.name == "restart-bp" && r.chance(350) {
+        // every handle goes away early, while a restart request and messages behind it are still queued
+        let mut early = vec![Cop::Sleep(1 + r.below(6)), Cop::Restart { h: 0 }];
+        for _ in 0..(1 + r.below(3)) {
+            early.push(Cop::Send { h: 0, script: vec![Act::Push(40 + r.below(9) as u32)] });
+        }
+        for x in 0..p.nslots {
+            early.push(Cop::Drop { h: x as usize });
+        }
+        clients.push(early);
     }
     if p.cleanup {
         // one more client that ends the case: stop or drop everything after a while
